@@ -78,6 +78,15 @@ impl Write for Tagged {
     }
 }
 
+/// `err N` for the output-encoding error (N = the offending number), `err ? <msg>` otherwise
+pub fn enc_err(e: &Error) -> String {
+    let note = e.get_note();
+    match note.strip_prefix("number ").and_then(|r| r.strip_suffix(" is not valid unicode")) {
+        Some(n) if e.get_msg() == "utf-8 encoding error" => format!("err {}", n),
+        _ => format!("err ? {} {}", enc_text(&e.get_msg()), enc_text(&note)),
+    }
+}
+
 pub fn enc_num(n: &Num) -> String {
     if n.is_nan() {
         "N".to_string()
@@ -138,7 +147,7 @@ fn run_one(prog: Vec<UnOptCode>, stdin: &str, max: usize) -> String {
             Err(e) => {
                 out.flush().unwrap();
                 err.flush().unwrap();
-                return format!("err {}", enc_text(&e.get_msg()));
+                return enc_err(&e);
             }
         }
         out.flush().unwrap();
@@ -171,7 +180,7 @@ fn run_inc<T: State>(
             Err(e) => {
                 out.flush().unwrap();
                 err.flush().unwrap();
-                return format!("err {}", enc_text(&e.get_msg()));
+                return enc_err(&e);
             }
         }
         out.flush().unwrap();
@@ -197,7 +206,7 @@ pub fn enc_opt_result(state: &mut OptState, code: &[OptCode]) -> String {
 fn run_opt(prog: Vec<UnOptCode>, level: u8, stdin: &str, max: usize) -> String {
     let (mut state, code) = match optimize::optimize(prog, level) {
         Ok(x) => x,
-        Err(e) => return format!("err {}", enc_text(&e.get_msg())),
+        Err(e) => return enc_err(&e),
     };
     println!("OPT {}", enc_opt_result(&mut state, &code));
     // run.rs: captured output is delivered first
@@ -205,7 +214,7 @@ fn run_opt(prog: Vec<UnOptCode>, level: u8, stdin: &str, max: usize) -> String {
     for num in state.get_stack(1).iter() {
         match ext::num_to_unicode(num) {
             Ok(c) => o.push(c),
-            Err(e) => return format!("err {}", enc_text(&e.get_msg())),
+            Err(e) => return enc_err(&e),
         }
     }
     if !o.is_empty() {
@@ -216,7 +225,7 @@ fn run_opt(prog: Vec<UnOptCode>, level: u8, stdin: &str, max: usize) -> String {
     for num in state.get_stack(2).iter() {
         match ext::num_to_unicode(num) {
             Ok(c) => o.push(c),
-            Err(e) => return format!("err {}", enc_text(&e.get_msg())),
+            Err(e) => return enc_err(&e),
         }
     }
     if !o.is_empty() {
